@@ -66,6 +66,8 @@ WriteThrough(k, v) ==
 
 (* ---- option / result / tuple ---- *)
 (* shape "opt": tag 0 = None, 1 = Some(id); "res": tag 0 = Ok(id), 1 = Err(id); "tup": tag = arity *)
+(* (the adapter gives the fields of a tuple three different sizes: position k of the C form must hold what position k of   *)
+(* the Rust form held, whatever order the compiler chose for the Rust tuple)                                               *)
 NewCell(shape, tag) ==
   /\ shape \in {"opt", "res", "tup"}
   /\ LET n == IF shape = "opt" THEN tag ELSE IF shape = "res" THEN 1 ELSE tag IN
